@@ -3,6 +3,7 @@ CONSTANTS
   MaxParams = 4
   Shapes = {2}
   Rich = FALSE
+  WithNone = FALSE
   SecondStep = FALSE
 INVARIANT InputScoped
 INVARIANT MachineIsOperator
